@@ -138,7 +138,7 @@ def gen_case(rng, name, rel, directed=None):
   T = {'t': np.round(rng.normal(size=d) * 16.0) / 4.0, 'Q': rand_Q(rng, d), 'c': float(rng.choice([0.5, 2.0, 3.0, 0.75, 5.0, 2.0 ** -16, 2.0 ** -21, 2.0 ** 13])),
        'perm': rng.permutation(len(X))}
   if directed == 'tiny_scale':
-    T['c'] = float(rng.choice([2.0 ** -16, 2.0 ** -21]))
+    T['c'] = float(rng.choice([2.0 ** -16, 2.0 ** -21, 2.0 ** -30, 2.0 ** -40]))     # (variances down to 2^-80: no absolute floor applies)
     o.pop('n_components', None)
   ev = {'ev': 'GeoCase', 'est': name, 'rel': rel, 'opt': opt, 'exc': '', 'd0': [], 'd1': [], 'c': dy(T['c']),
         'Q': dym(T['Q']) if rel == 'orthogonal' else [], 'M0': [], 'M1': [], 'dim': d}
